@@ -719,6 +719,83 @@ def _shard_cases(**kw):
     return en
 
 
+# ----------------------------------------------------------------------- isoform profiles of a gene built from a database
+
+@st.composite
+def gene_models(draw):
+    """A gene of 2-4 isoforms derived from one exon chain: splice sites moved by a few bases (less than, equal to and
+    more than the matching tolerance), skipped exons, other ends.  GeneInfo is built from an in-memory annotation
+    database with the read-matching tolerance the pipeline passes (delta 0..12)."""
+    n = draw(st.integers(2, 5))
+    pos = draw(st.integers(50, 500))
+    base = []
+    for _ in range(n):
+        ln = draw(st.integers(30, 200))
+        base.append((pos, pos + ln - 1))
+        pos += ln + draw(st.integers(40, 300))
+    isos = [base]
+    for _ in range(draw(st.integers(1, 3))):
+        ex = [list(e) for e in base]
+        if len(ex) >= 3 and draw(st.booleans()):
+            del ex[draw(st.integers(1, len(ex) - 2))]
+        for _ in range(draw(st.integers(0, 3))):
+            i = draw(st.integers(0, len(ex) - 1))
+            side = draw(st.integers(0, 1))
+            d = draw(st.sampled_from([-13, -7, -6, -5, -4, -3, -1, 1, 3, 4, 5, 6, 7, 13]))
+            ex[i][side] += d
+        if all(e[0] <= e[1] for e in ex) and all(ex[i][1] + 2 <= ex[i + 1][0] for i in range(len(ex) - 1)):
+            isos.append([tuple(e) for e in ex])
+    return {"isoforms": isos, "strand": draw(st.sampled_from(["+", "-"])), "delta": draw(st.sampled_from([0, 4, 6, 12]))}
+
+
+def eval_gene_info(case, ctx):
+    import gffutils
+    c, g, p = C()
+    isos, strand, delta = case["isoforms"], case["strand"], case["delta"]
+    lines = []
+    a, b = min(t[0][0] for t in isos), max(t[-1][1] for t in isos)
+    lines.append('chr1\tv\tgene\t%d\t%d\t.\t%s\t.\tgene_id "G";' % (a, b, strand))
+    for i, t in enumerate(isos):
+        lines.append('chr1\tv\ttranscript\t%d\t%d\t.\t%s\t.\tgene_id "G"; transcript_id "T%d";' % (
+            t[0][0], t[-1][1], strand, i))
+        for e in t:
+            lines.append('chr1\tv\texon\t%d\t%d\t.\t%s\t.\tgene_id "G"; transcript_id "T%d";' % (e[0], e[1], strand, i))
+    db = gffutils.create_db("\n".join(lines) + "\n", ":memory:", from_string=True, force=True, keep_order=True,
+                            merge_strategy='error', sort_attribute_values=True, disable_infer_transcripts=True,
+                            disable_infer_genes=True)
+    gi = g.GeneInfo(list(db.features_of_type('gene')), db, delta=delta)
+    all_introns = sorted(set((t[i][1] + 1, t[i + 1][0] - 1) for t in isos for i in range(len(t) - 1)))
+    all_exons = sorted(set(e for t in isos for e in t))
+    near = False
+    for kind, prof, feats_exp, cmp_kind in (("intron", gi.intron_profiles, all_introns, "equal"),
+                                            ("exon", gi.exon_profiles, all_exons, "equal"),
+                                            ("split_exon", gi.split_exon_profiles, None, "contains")):
+        feats = [tuple(x) for x in prof.features]
+        if feats_exp is not None and feats != feats_exp:
+            ctx.violation("C19:gene_info:features:" + kind, {"got": feats, "expected": feats_exp}, case)
+            continue
+        if delta and any(f1 != f2 and abs(f1[0] - f2[0]) <= delta and abs(f1[1] - f2[1]) <= delta
+                         for f1 in feats for f2 in feats):
+            near = True
+        for i, t in enumerate(isos):
+            tid = "T%d" % i
+            own = [(t[j][1] + 1, t[j + 1][0] - 1) for j in range(len(t) - 1)] if kind == "intron" else list(t)
+            exp = _expected_isoform_profile(feats, own, (t[0][0], t[-1][1]), cmp_kind)
+            got = list(prof.profiles.get(tid, []))
+            if got != exp:
+                ctx.violation("C19:gene_info:isoform_profile:" + kind,
+                              {"features": feats, "isoform": own, "delta": delta, "got": got, "expected": exp}, case)
+    ctx.cls("gene_info delta=%d" % delta, "features within delta of each other" if near else "no near features")
+    if near:
+        ctx.mark_nontrivial(case_hash_(case))
+        ctx.sample({"family": "gene_info", "delta": delta, "isoforms": isos[:3]}, limit=2)
+
+
+def case_hash_(case):
+    from vlib.shard import case_hash
+    return case_hash(case)
+
+
 def stages(tier):
     q = tier == "quick"
     n = N_for(tier)
@@ -730,6 +807,7 @@ def stages(tier):
               exhaustive=True),
         Stage("profiles", "enum", eval_profiles, enumerate=_shard_cases(n=6 if q else 7, kmax=3), exhaustive=True),
         Stage("profiles_mid", "hyp", eval_mid, n=20000 if q else 600000, strategy=mid_profiles),
+        Stage("gene_info", "hyp", eval_gene_info, n=3000 if q else 100000, strategy=gene_models),
         Stage("big", "hyp", eval_big, n=3000 if q else 100000, strategy=big_lists),
         # the same generator and oracle driven by libFuzzer (atheris) with coverage feedback from /repo/src
         Stage("fuzz_big", "hypfuzz", eval_big, n=6000 if q else 400000, strategy=big_lists, shards=4 if q else 16),
